@@ -14,6 +14,10 @@
 (*                                 show it after the write, the value read *)
 (*                                 back, Available() after reading, the    *)
 (*                                 re-encoding of the value read back      *)
+(*   Look path o r                 read-only method o (op, arguments) with *)
+(*                                 result r called on the node at path:    *)
+(*                                 the result is the content's, the content*)
+(*                                 (incl. entry order) stays what it was   *)
 (*   Adopt                         go on with the object read back         *)
 (*   End                                                                   *)
 (* "Panic" (a recovered panic) and "Lost" (a getter returned nil on the    *)
@@ -53,13 +57,19 @@ TraceWO == /\ Step("WO")
                 /\ e.avail = Len(wire') - (rpos' - 1)
                 /\ e.again = again'[1]
 
+\* a read-only call: what it returned is what the content defines, and the content stays
+TraceLook == /\ Step("Look")
+             /\ LET e == Trace[l] IN
+                  /\ Has(e, "path") /\ Has(e, "o")
+                  /\ Look(e.path, IF Has(e, "r") THEN [f \in DOMAIN e.o \cup {"r"} |-> IF f = "r" THEN e.r ELSE e.o[f]] ELSE e.o)
+
 TraceAdopt == Step("Adopt") /\ Adopt
 
 TraceEnd == Step("End") /\ cur # <<>> /\ UNCHANGED ovars
 
 InvAll == ReadBack /\ ExactConsumption /\ AllConsumed /\ WireOK /\ ReEncodeIdentical /\ TagFirst /\ WroteCurrent
 
-TraceNext == (TraceReset \/ TraceNew \/ TraceMut \/ TraceWO \/ TraceAdopt \/ TraceEnd) /\ InvAll'
+TraceNext == (TraceReset \/ TraceNew \/ TraceMut \/ TraceLook \/ TraceWO \/ TraceAdopt \/ TraceEnd) /\ InvAll'
 
 TraceSpec == TraceInit /\ [][TraceNext]_tvars
 
